@@ -8,6 +8,9 @@ Theorem C06_commit_generation :
   forall cf reqs s d i r c g ts' d',
     exec cf reqs s d = (ts', d') -> nth_error reqs i = Some r ->
     carries_cons_gen r c (Some g) -> req_wf r = true -> succeeded ts' i ->
+    (* if the request clears c's allocations, c still holds some whenever they are re-read; otherwise the
+       request is an (idempotent) no-op that performs no compare-and-swap: known finding "double wipe" *)
+    (wipes r c -> forall k, wipe_list (snd (at_step cf reqs s d k)) c <> []) ->
     exists k, commits_at cf reqs s d i k /\ cgen_of (snd (at_step cf reqs s d k)) c = Some g /\
               (exists g', cgen_of (snd (at_step cf reqs s d (S k))) c = Some g' /\ g < g' \/
                cgen_of (snd (at_step cf reqs s d (S k))) c = None).
